@@ -507,6 +507,10 @@ func (w *World) Exec(st *Step) (res StepResult) {
 		// the oracle that owns this step does the work (see snapshotMonitor)
 	case "admin":
 		return w.execAdmin(st)
+	case "intrude":
+		return w.execIntrude(st)
+	case "rotate":
+		return w.execRotate(st)
 	default:
 		panic("unknown step op " + st.Op)
 	}
